@@ -4,8 +4,8 @@ CONSTANTS
   Kinds <- Slts
   Comps <- FewComps
   Intervals <- Iv4
-  MaxActs = 8
-  Cons <- Cons1
+  MaxActs = 6
+  Cons <- Cons3
   MaxSets = 2
 INVARIANT SameLength
 INVARIANT SameStep
